@@ -18,6 +18,37 @@ class InjectedArith(InjectedFault, ZeroDivisionError):
     """fault raised inside the EVALUATION of a task (a user function that divides by zero)"""
 
 
+# the injected failure comes in the exception classes a container or a user function really raises (a handler somewhere in the
+# update path that treats one of them specially must not change what the caller sees)
+class InjectedKeyError(InjectedFault, KeyError):
+    pass
+
+
+class InjectedAttributeError(InjectedFault, AttributeError):
+    pass
+
+
+class InjectedValueError(InjectedFault, ValueError):
+    pass
+
+
+class InjectedTypeError(InjectedFault, TypeError):
+    pass
+
+
+class InjectedIndexError(InjectedFault, IndexError):
+    pass
+
+
+class InjectedStop(InjectedFault, StopIteration):
+    pass
+
+
+FAULT_CLASSES = {"plain": InjectedFault, "KeyError": InjectedKeyError, "AttributeError": InjectedAttributeError,
+                 "ValueError": InjectedValueError, "TypeError": InjectedTypeError, "IndexError": InjectedIndexError,
+                 "StopIteration": InjectedStop}
+
+
 class Trace:
     """Shared by all logging containers of one world."""
 
@@ -26,9 +57,11 @@ class Trace:
         self.kinds = []       # kind of every fault point met since the last reset: 'w' container write, 'e' evaluation (user function)
         self.count = 0        # fault points (write attempts + evaluation points) since last reset
         self.fail_at = None   # raise InjectedFault on this attempt index
+        self.fail_cls = None  # exception class of the injected write fault (default InjectedFault)
         self.calls = []       # FunctionTask action calls (task id)
 
-    def reset(self, fail_at=None):
+    def reset(self, fail_at=None, fail_cls=None):
+        self.fail_cls = fail_cls
         self.events = []
         self.kinds = []
         self.calls = []
@@ -42,7 +75,7 @@ class Trace:
         if self.fail_at is not None and k == self.fail_at:
             if kind == "e":
                 raise InjectedArith(f"injected fault at point #{k}: evaluation of {T.path_str(path)}")
-            raise InjectedFault(f"injected fault at write #{k} to {T.path_str(path)}")
+            raise (self.fail_cls or InjectedFault)(f"injected fault at write #{k} to {T.path_str(path)}")
 
 
 class LogDict(dict):
